@@ -419,7 +419,23 @@ def r15_3(ctx, prog, crate):
             if all(reach_from) or not any(reach_from):
                 continue            # does not decide whether the store happens
             e = SY.op(t["discr"])
-            if not mentions_site(e, gbbs):
+            if e[0] == "phi":
+                # a flag computed by `matches!(..)` / if-else: constants assigned on different arms; what it depends on
+                # are the tests that select the arm (second-order control dependence)
+                deps = []
+                for d_ in b.prov.defs.get(e[1], []):
+                    db = d_[1]
+                    for x2, t2 in b.switches():
+                        if x2 == x or not b.dominates(x2, db) or not b.dominates(x2, x):
+                            continue
+                        r2 = [db in b.reach([y], avoid=[x]) for y in b.succ[x2]]
+                        if all(r2) or not any(r2):
+                            continue
+                        deps.append(SY.op(t2["discr"]))
+                if any(mentions_site(d2, gbbs) and not (d2[0] == "discr" and d2[1][0] == "site" and d2[1][2] in gbbs) for d2 in deps):
+                    bad.append(b.where(x))
+                continue
+            if not mentions_site(e, gbbs) and not any(z.kind == "call" and z.b in gbbs for z in b.prov.op_src(t["discr"])):
                 continue
             presence = e[0] == "discr" or (e[0] == "site" and e[1].endswith(("Option::is_some", "Option::is_none")))
             if not presence:
